@@ -12,6 +12,14 @@ pub fn first_stop(h: &Hist, s: u8) -> Option<&StopRec> {
     h.st[s as usize].stops.iter().find(|r| r.how != STOP_CLOSE)
 }
 
+/// seq by which every stop() racing with the first one to return has returned (== the first stop's
+/// return when nothing races): the point from which "the store has stopped" is unambiguous
+pub fn settled_stop_ret(h: &Hist, s: u8) -> u64 {
+    let stops: Vec<&StopRec> = h.st[s as usize].stops.iter().filter(|r| r.how != STOP_CLOSE).collect();
+    let m = stops.iter().map(|r| r.ret).min().unwrap_or(INF);
+    stops.iter().filter(|r| r.inv < m).map(|r| r.ret).max().unwrap_or(INF)
+}
+
 pub fn stop_timed_out(h: &Hist, s: u8) -> bool {
     h.st[s as usize].stops.iter().any(|r| r.how != STOP_CLOSE && (r.ms >= 2500 || r.ret == INF))
 }
